@@ -843,6 +843,11 @@ func (m *Model) pickReturn(ev Event) {
 	extraMethod := c.Method >= MExtra0
 	report := func(prop, rule, facts, msg string) {
 		m.v(prop, rule, facts, msg, ev.Op)
+		if prop == "C01" && m.cfg.fallback && (rule == "bound-key-not-on-home" || rule == "bound-key-on-other-channel") {
+			// with fallback on this is also C08's "from the moment the home channel is
+			// READY again every call for the key goes back to the home channel"
+			m.v("C08", "not-back-home", facts, msg, ev.Op)
+		}
 		if extraMethod {
 			m.v("C17", "method-mapping", facts, "extra method "+c.MethodName+": "+msg, ev.Op)
 		} else if m.cfgFaulted && prop != "C04" && m.s.plan.Profile == "config" {
